@@ -36,7 +36,7 @@ def run(ctx):
             'asymmetric tensors: strain and strain rate as symmetric parts, von Mises stress, traction sigma.n in 3-D and in the plane), '
             'each guarded by a compile-time existence probe, x 3 numeric types x a magnitude grid 2^e*m over 80 binades (all pairs for 1-2 '
             'arguments, full sweeps of every argument with co-prime strides on the others for 3-4 arguments; all arguments pairwise '
-            'different). Reference in __float128 with the textbook constants; accepted error = 4 ulp or the image of +-1,2,4 ulp input '
-            'moves under the exact formula (R3). Plus every discovered member function that has a constructor twin with the same operand types (%d today), compared with that constructor under the same kind of tolerance. '
+            'different; heat-capacity ratios both ordinary and next to one). Reference in __float128 with the textbook constants; accepted error = 8 ulp of the result (the inputs are exact numbers: '
+            'no allowance for their conditioning). Plus every discovered member function that has a constructor twin with the same operand types (%d today), compared with that constructor under the same kind of tolerance. '
             'distinct_nontrivial = definitions x numeric types checked') % (len(present) + len(absent), len(items))
     return vf.finish(ctx, 'exploration', rule, h.stat('evaluations') + h.stat('member_twin_evaluations'), max(2, h.stat('definitions_checked') + h.stat('member_twins_checked')), True)
